@@ -290,6 +290,30 @@ pub fn run(tier: Tier) -> i32 {
         }
     });
     ctx.count("psk_replaced_by_set_psk_cases", psk_names.len() as u64);
+    // 3d. the two parties need not use the same backend: ring-preferring initiator with a default responder and the
+    // other way round, every cipher x hash the ring backend serves (and one it does not), a spread of patterns
+    {
+        use crate::seam::Backend;
+        let mut jobs = vec![];
+        for c in [CipherAlg::ChaChaPoly, CipherAlg::AesGcm] {
+            for h in [HashAlg::Sha256, HashAlg::Sha512, HashAlg::Blake2s] {
+                for (pat, psks) in [("XX", vec![]), ("IK", vec![]), ("NN", vec![2u8]), ("N", vec![]), ("KK", vec![0u8]), ("X1X1", vec![])] {
+                    for bk in [[Backend::Ring, Backend::Default], [Backend::Default, Backend::Ring], [Backend::DefaultRing, Backend::Ring]] {
+                        jobs.push((c, h, pat, psks.clone(), bk));
+                    }
+                }
+            }
+        }
+        jobs.par_iter().enumerate().for_each(|(k, (c, h, pat, psks, bk))| {
+            let p = super::common::proto(pat, psks, DhAlg::X25519, *c, *h);
+            if let Some(mut cfg) = cfg_for(&p, 9, Eph2::Scripted) {
+                cfg.backend = *bk;
+                let dirs: Vec<Side> = if p.pattern.is_oneway() { vec![Side::I, Side::I] } else { vec![Side::I, Side::R, Side::R, Side::I] };
+                eval(&cfg, &sess::full_session_ops(&p, &[5, 0, 40, 1], if k % 2 == 0 { Mode::TT } else { Mode::SS }, &dirs, &[9, 0, 300, 2]));
+            }
+        });
+        ctx.count("mixed_backend_cases", jobs.len() as u64);
+    }
     // 3c. EVERY payload length (not an alphabet): transport payloads 0..=65519 for each cipher x backend, in
     // both directions, stateful and stateless; handshake payloads 0..=max for both messages of NN and the
     // message of N (the payload path does not depend on the pattern). One session serves a whole sweep.
